@@ -49,7 +49,7 @@ log = logging.getHttpLogger(__name__)
 
 class HttpRelayClient(RelayPoolClient):
 
-    reply_code_pattern = re.compile(r'^\s*(\d\d\d)\s*;')
+    reply_code_pattern = re.compile(r'^\s*([1-5]\d\d)\s*;')
     reply_param_pattern = re.compile(r'\s(\w+)\s*=\s*"(.*?)"')
 
     def __init__(self, relay):
